@@ -649,13 +649,33 @@ func edgeFacts(pred *ssa.BasicBlock) map[ssa.Value]bool {
 
 // sameTest: two comparison instructions test the same thing (same operator and operands; constants by value).
 func sameTest(a, b ssa.Value) bool {
+	same, neg := sameTestNeg(a, b)
+	return same && !neg
+}
+
+// sameTestNeg: the two comparisons test the same operands; neg reports that one is `==` and the other `!=`.
+func sameTestNeg(a, b ssa.Value) (same bool, neg bool) {
 	x, ok1 := a.(*ssa.BinOp)
 	y, ok2 := b.(*ssa.BinOp)
-	if !ok1 || !ok2 || x.Op != y.Op {
-		return false
+	if !ok1 || !ok2 {
+		return false, false
 	}
+	switch {
+	case x.Op == y.Op:
+	case (x.Op == token.EQL && y.Op == token.NEQ) || (x.Op == token.NEQ && y.Op == token.EQL):
+		neg = true
+	default:
+		return false, false
+	}
+	return sameOperands(x, y), neg
+}
+
+func sameOperands(x, y *ssa.BinOp) bool {
 	same := func(u, v ssa.Value) bool {
 		if u == v {
+			return true
+		}
+		if sameFieldLoad(u, v) || sameFieldLoad(v, u) {
 			return true
 		}
 		cu, ok1 := u.(*ssa.Const)
@@ -669,6 +689,57 @@ func sameTest(a, b ssa.Value) bool {
 		return false
 	}
 	return same(x.X, y.X) && same(x.Y, y.Y)
+}
+
+// sameFieldLoad: a and b load the same field of the same object, b right after the test on a — in the block the
+// branch on a leads to, with no store or call before it (`if p.x != nil { return p.x }`).
+func sameFieldLoad(a, b ssa.Value) bool {
+	la, ok1 := a.(*ssa.UnOp)
+	lb, ok2 := b.(*ssa.UnOp)
+	if !ok1 || !ok2 || la.Op != token.MUL || lb.Op != token.MUL {
+		return false
+	}
+	fa, ok1 := la.X.(*ssa.FieldAddr)
+	fb, ok2 := lb.X.(*ssa.FieldAddr)
+	if !ok1 || !ok2 || fa.X != fb.X || fa.Field != fb.Field {
+		return false
+	}
+	ba, bb := la.Block(), lb.Block()
+	if ba == nil || bb == nil {
+		return false
+	}
+	okSucc := ba == bb
+	for _, s := range ba.Succs {
+		if s == bb && len(bb.Preds) == 1 {
+			okSucc = true
+		}
+	}
+	if !okSucc {
+		return false
+	}
+	// nothing between the two loads may write memory
+	scan := func(blk *ssa.BasicBlock, from, to ssa.Instruction) bool {
+		on := from == nil
+		for _, in := range blk.Instrs {
+			if in == to {
+				return true
+			}
+			if on {
+				switch in.(type) {
+				case *ssa.Store, *ssa.Call, *ssa.MapUpdate, *ssa.Send, *ssa.Go, *ssa.Defer, *ssa.Select:
+					return false
+				}
+			}
+			if in == from {
+				on = true
+			}
+		}
+		return true
+	}
+	if ba == bb {
+		return scan(ba, la, lb)
+	}
+	return scan(ba, la, nil) && scan(bb, nil, lb)
 }
 
 var curFacts map[ssa.Value]bool
@@ -687,8 +758,8 @@ func evalCond(v ssa.Value, blk *ssa.BasicBlock, edge int, depth int) (val bool, 
 			probe.Y = ph.Edges[edge]
 		}
 		for c, truth := range curFacts {
-			if sameTest(&probe, c) {
-				return truth, true
+			if same, neg := sameTestNeg(&probe, c); same {
+				return truth != neg, true
 			}
 		}
 	}
@@ -1261,6 +1332,7 @@ func repairUses(fn *ssa.Function, k *ssa.BasicBlock, fresh [2]*ssa.BasicBlock, d
 	kAlive := len(k.Preds) > 0
 	var created []*ssa.Phi
 	for _, d := range defs {
+		createdFor := map[*ssa.Phi]bool{} // the phis this repair of d inserts (their edges are already what read() yields)
 		d := d
 		atEnd := map[*ssa.BasicBlock]ssa.Value{}
 		if kAlive {
@@ -1278,8 +1350,11 @@ func repairUses(fn *ssa.Function, k *ssa.BasicBlock, fresh [2]*ssa.BasicBlock, d
 			}
 			switch len(b.Preds) {
 			case 0:
-				atEnd[b] = d
-				return d
+				// no definition reaches here (a path that does not pass the split block: the value is never used on it):
+				// a typed zero stands for "undefined", so that nothing refers to the split block once it is gone
+				z := zeroOf(d.Type())
+				atEnd[b] = z
+				return z
 			case 1:
 				// no memo while the chain is being followed: a cycle always contains a join, whose phi is memoised first
 				v := read(b.Preds[0])
@@ -1299,6 +1374,7 @@ func repairUses(fn *ssa.Function, k *ssa.BasicBlock, fresh [2]*ssa.BasicBlock, d
 			}
 			b.Instrs = append([]ssa.Instruction{ph}, b.Instrs...)
 			created = append(created, ph)
+			createdFor[ph] = true
 			return ph
 		}
 		for _, b := range fn.Blocks {
@@ -1307,7 +1383,7 @@ func repairUses(fn *ssa.Function, k *ssa.BasicBlock, fresh [2]*ssa.BasicBlock, d
 			}
 			for _, in := range b.Instrs {
 				if ph, ok := in.(*ssa.Phi); ok {
-					if strings_hasPrefix(ph.Comment, "threaded:"+d.Name()) {
+					if createdFor[ph] {
 						continue
 					}
 					for i, e := range ph.Edges {
@@ -1369,6 +1445,20 @@ func repairUses(fn *ssa.Function, k *ssa.BasicBlock, fresh [2]*ssa.BasicBlock, d
 			again = true
 		}
 	}
+}
+
+func zeroOf(t types.Type) ssa.Value {
+	if b, ok := t.Underlying().(*types.Basic); ok {
+		switch {
+		case b.Info()&types.IsBoolean != 0:
+			return ssa.NewConst(constant.MakeBool(false), t)
+		case b.Info()&types.IsString != 0:
+			return ssa.NewConst(constant.MakeString(""), t)
+		case b.Info()&types.IsNumeric != 0:
+			return ssa.NewConst(constant.MakeInt64(0), t)
+		}
+	}
+	return ssa.NewConst(nil, t)
 }
 
 func strings_hasPrefix(s, p string) bool { return len(s) >= len(p) && s[:len(p)] == p }
